@@ -184,6 +184,28 @@ def rule_mmb_table(prog, root, fixture=False):
                         if call is not None and call.get("k") == "CallExpr":
                             for t in prog.call_targets(fn, call):
                                 sws = [x for x in t.walk() if x.get("k") == "SwitchStmt"]
+                                if not sws and len(t.params) == 1:
+                                    # an if-chain: `if (status == K) return Rec{...}; ... return Rec{...};`
+                                    gt = Guards(t)
+                                    for x in t.walk():
+                                        if x.get("k") != "ReturnStmt" or not x.get("c"):
+                                            continue
+                                        row = strip_all(x["c"][0])
+                                        for _ in range(4):
+                                            if row is not None and row.get("k") in ("CXXConstructExpr", "CXXFunctionalCastExpr",
+                                                                                    "CXXTemporaryObjectExpr") and len(row.get("c", [])) == 1:
+                                                row = strip_all(row["c"][0])
+                                        if row is None or row.get("k") != "InitListExpr" or len(row.get("c", [])) <= fi:
+                                            continue
+                                        val = folded(row["c"][fi])
+                                        labs = [folded(rr) for l, rel, rr in (gt.cmps(x) or [])
+                                                if rel == "==" and (strip_all(l) or {}).get("d") == t.params[0]["d"] and folded(rr) is not None]
+                                        if labs:
+                                            for lab in labs:
+                                                table[lab] = val
+                                        else:
+                                            fallback = val
+                                    continue
                                 if len(sws) != 1:
                                     continue
                                 from .c08 import _switch_handlers
@@ -406,6 +428,28 @@ def rule_view_shapes(prog, fixture=False):
                     if any(same_expr(x, take) for x in walk(a["c"][1])) and any(
                             x.get("k") == "DeclRefExpr" and x.get("d") == sk.get("d") for x in walk(a["c"][1])):
                         adv = True
+            if not adv:
+                # closed form: skip = <side index> * <side length>, the index being the variable of the enclosing loop
+                sdef = sk
+                if sk is not None and sk.get("k") == "DeclRefExpr":
+                    for d_ in fn.walk():
+                        if d_.get("k") == "VarDecl" and d_.get("d") == sk.get("d") and d_.get("c"):
+                            sdef = strip_all(d_["c"][0])
+                while sdef is not None and sdef.get("k") in ("CStyleCastExpr", "CXXStaticCastExpr", "CXXFunctionalCastExpr", "CallExpr") and \
+                        len([c for c in sdef.get("c", [])]) in (1, 2) and not (sdef.get("k") == "CallExpr" and len(call_args(sdef)) != 1):
+                    sdef = strip_all(call_args(sdef)[0] if sdef["k"] == "CallExpr" else sdef["c"][0])
+                lp_ = None
+                for a_ in fn.ancestors(v):
+                    if a_.get("k") == "ForStmt":
+                        lp_ = a_
+                        break
+                if sdef is not None and sdef.get("k") == "BinaryOperator" and sdef.get("op") == "*" and lp_ is not None and "init" in lp_["parts"]:
+                    ivs_ = [x for x in walk(lp_["c"][lp_["parts"]["init"]]) if x.get("k") == "VarDecl"]
+                    a_, b_ = strip_all(sdef["c"][0]), strip_all(sdef["c"][1])
+                    for x_, y_ in ((a_, b_), (b_, a_)):
+                        if ivs_ and x_ is not None and x_.get("k") == "DeclRefExpr" and x_.get("d") == ivs_[0]["d"] and \
+                                folded(ivs_[0]["c"][0]) == 0 and same_expr(y_, take):
+                            adv = True
             if not adv:
                 probs.append("the skip is not advanced by one side length per side")
             # the side length is that of the geometry the view itself is given (one side)
